@@ -159,7 +159,11 @@ def judge_merge(case):
     want = ["REF%d" % (i + 1) for i in range(k)] + ["S%d" % g for g in range(k, lay["ntot"])]
     w = max(len(r_) for r_ in names)
     table = pd.DataFrame([list(r_) + [np.nan] * (w - len(r_)) for r_ in names])
-    for form, obj in (("list", names), ("table", table)):
+    # the row labels of the names sheet are the user's (read with index_col=0): they carry no order
+    labels = [["north", "centre", "south", "east", "west"], [10, 20, 5, 7, 1], ["s3", "s1", "s2", "s0", "s9"]][len(names) % 3][: len(names)]
+    table_lab = table.copy()
+    table_lab.index = labels
+    for form, obj in (("list", names), ("table", table), ("table-with-row-labels", table_lab)):
         fl = sut(gen.flatten_sns_names, obj, [list(x) for x in reflist])
         if j.check(not raised(fl), "flatten-raises", lambda: f"{form}: {fl!r}"):
             j.check(list(fl) == want, "flatten-order", lambda: f"{form}: {fl} expected {want}")
